@@ -6,10 +6,15 @@ Import ListNotations.
 Definition tview (g : glob) : list nat := [b2 (err g); b2 (sock_open (sock g)); b2 (mt_live (mt g))].
 (* a read request is answered iff the socket is open and the main thread is in its loop *)
 Definition tserving (g : glob) : nat := b2 (sock_open (sock g) && loop_pc (mt g)).
+(* the main thread enters the handler of a request: it advances to M_recv (at most three steps) *)
+Definition tbusy1 (v : variants) (g : glob) : glob :=
+  match mt g with M_recv => g | _ => match mstep v g with Some g' => g' | None => g end end.
+Definition tbusy (v : variants) (g : glob) : glob := tbusy1 v (tbusy1 v (tbusy1 v g)).
+Definition talive (g : glob) : bool := mt_live (mt g).
 Definition tseq (v : variants) : glob -> list sop -> list (list nat) :=
-  run_seq glob cpc op lock (cstep v) (mstep v) is_idle Idle Start Stop tview tserving.
+  run_seq glob cpc op lock (cstep v) (mstep v) is_idle Idle Start Stop tview (tbusy v) talive tserving.
 Definition tseq_step (v : variants) :=
-  seq_step glob cpc op lock (cstep v) (mstep v) is_idle Idle Start Stop tview tserving.
+  seq_step glob cpc op lock (cstep v) (mstep v) is_idle Idle Start Stop tview (tbusy v) talive tserving.
 
 Definition hview (g : hglob) : list nat := [b2 (herr g); b2 (hsock_open (hsock g)); b2 (hmt_live (hmt g))].
 (* an HTTP request: refused when the listening socket is closed; answered when the accept loop
@@ -17,6 +22,6 @@ Definition hview (g : hglob) : list nat := [b2 (herr g); b2 (hsock_open (hsock g
 Definition hserving (g : hglob) : nat :=
   if hsock_open (hsock g) then (if hloop_pc (hmt g) && negb (sreq g) then 1 else 2) else 0.
 Definition hseq (close_on_stop : bool) : hglob -> list sop -> list (list nat) :=
-  run_seq hglob hpc hop hlock (hcstep close_on_stop) hmstep his_idle HIdle HStart HStop hview hserving.
+  run_seq hglob hpc hop hlock (hcstep close_on_stop) hmstep his_idle HIdle HStart HStop hview (fun g => g) (fun g => hmt_live (hmt g)) hserving.
 Definition hseq_step (close_on_stop : bool) :=
-  seq_step hglob hpc hop hlock (hcstep close_on_stop) hmstep his_idle HIdle HStart HStop hview hserving.
+  seq_step hglob hpc hop hlock (hcstep close_on_stop) hmstep his_idle HIdle HStart HStop hview (fun g => g) (fun g => hmt_live (hmt g)) hserving.
